@@ -271,7 +271,7 @@ Section WithCfg.
     if negb tracked then ret e else
     expose e ;;;
     s <- get ;;
-    if mem e (clone_panics s) then emit (EvCall "clone_panic" [e]) ;;; panic
+    if mem e (clone_panics s) then emit (EvCall "k:clone_panic:" [e]) ;;; panic
     else p <- payload_of e ;;
          n <- fresh_elem p ;;
          emit (EvClone e n) ;;;
@@ -304,7 +304,7 @@ Section WithCfg.
        h_align := h_align bl; slots := f; b_live := b_live bl |}.
 
   (* where element 0 of a block really is: fixed by the alignment the block was obtained with *)
-  Definition canon_off (bl : block) : option Z := data_offset cfg (b_align bl).
+  Definition canon_off (bl : block) : option Z := data_offset (b_align bl).
 
   (* header access through a handle *)
   Definition hdr_block (h : handle) : M (nat * block) :=
@@ -504,7 +504,7 @@ Section WithCfg.
         else panic
     | At b off =>
         a <- alignment v ;;
-        o <- lift_opt (data_offset cfg a) ;;
+        o <- lift_opt (data_offset a) ;;
         ret (PElt b (off + o) 0)
     end.
 
@@ -516,7 +516,8 @@ Section WithCfg.
     l0 <- len v ;;
     (if release cfg then ret tt else if l0 <=? capacity_ then ret tt else panic) ;;;
     old_capacity <- capacity v ;;
-    if capacity_ =? old_capacity then ret tt else
+    dflt <- is_default v ;;
+    if (capacity_ =? old_capacity) && negb (dflt && (max_align cfg <? alignment_)) then ret tt else
     nl <- lift_opt (make_layout cfg capacity_ alignment_) ;;
     let '(nsize, nalign) := nl in
     l <- len v ;;
@@ -543,8 +544,7 @@ Section WithCfg.
     | S fuel => c' <- lift_opt (next_capacity c) ;; reserve_loop fuel c' total
     end.
 
-  Definition add_m (a b : Z) : M Z := lift_opt (add_u cfg a b).
-  Definition sub_m (a b : Z) : M Z := lift_opt (sub_u cfg a b).
+  Definition add_m (a b : Z) : M Z := lift_opt (add_u a b).
 
   Definition reserve (v : nat) (additional : Z) : M unit :=
     c <- capacity v ;;
@@ -586,12 +586,761 @@ Section WithCfg.
   Definition with_capacity (v : nat) (c : Z) : M unit :=
     new_vec v ;;; reserve_exact v c.
 
-  (* Ok(()) = true, Err(AlignmentTooSmall) / Err(AlignmentNotDivisibleByTwo) reported as codes 1 / 2 *)
+  (* result code: 0 = Ok, 1 = Err(AlignmentTooSmall), 2 = Err(AlignmentNotDivisibleByTwo) *)
   Definition with_alignment (v : nat) (c a : Z) : M Z :=
     if a <? max_align cfg then ret 1 else
     if negb (is_pow2 a) then ret 2 else
+    new_vec v ;;; grow v c a ;;; ret 0.
+
+  (* ------------------------------------------------------- slices of slots *)
+
+  Fixpoint read_from (p : eptr) (n : nat) : M (list elem) :=
+    match n with
+    | O => ret []
+    | S n => e <- slot_read p ;; es <- read_from (padd p 1) n ;; ret (e :: es)
+    end.
+
+  (* the bits of n consecutive slots starting at p; n is checked against the block first so
+     that a garbage length cannot make the model loop *)
+  Definition read_list (p : eptr) (n : Z) : M (list elem) :=
+    if n <=? 0 then ret [] else
+    elt_block (padd p (n - 1)) ;;; read_from p (Z.to_nat n).
+
+  Fixpoint expose_list (es : list elem) : M unit :=
+    match es with [] => ret tt | e :: es => expose e ;;; expose_list es end.
+
+  Fixpoint has_dup (es : list elem) : bool :=
+    match es with [] => false | e :: es => mem e es || has_dup es end.
+
+  (* a `&[T]` / `&mut [T]` over [p, p+n) is created and handed to user code *)
+  Definition expose_slice (p : eptr) (n : Z) : M (list elem) :=
+    match p with
+    | PNull => ub NullSlice
+    | _ =>
+        es <- read_list p n ;;
+        expose_list es ;;;
+        if tracked && has_dup es then ub DupExposed else ret es
+    end.
+
+  (* Deref: the slice [0, len) *)
+  Definition deref (v : nat) : M (list elem) :=
+    d <- is_default v ;;
+    if d then ret [] else
+    l <- len v ;; p <- data v ;; expose_slice p l.
+
+  (* --------------------------------------------------------- simple mutators *)
+
+  Definition push (v : nat) (value : elem) : M unit :=
+    on_unwind
+      (l <- len v ;; c <- capacity v ;; a <- alignment v ;;
+       (if l =? c then nc <- lift_opt (next_capacity c) ;; grow v nc a else ret tt) ;;;
+       l <- len v ;;
+       d <- data v ;;
+       slot_write (padd d l) value ;;;
+       set_len v (l + 1))
+      (drop_elem value).
+
+  Definition pop (v : nat) : M (option elem) :=
+    l <- len v ;;
+    if l =? 0 then ret None else
+    p <- as_ptr v ;;
+    e <- slot_read (padd p (l - 1)) ;;
+    set_len v (l - 1) ;;;
+    hand_out e ;;;
+    ret (Some e).
+
+  Definition insert (v : nat) (index : Z) (element : elem) : M unit :=
+    on_unwind
+      (l <- len v ;;
+       (if l <? index then panic else ret tt) ;;;
+       c <- capacity v ;;
+       (if l =? c then reserve v 1 else ret tt) ;;;
+       p0 <- as_ptr v ;;
+       let p := padd p0 index in
+       slot_copy p (padd p 1) (l - index) ;;;
+       slot_write p element ;;;
+       set_len v (l + 1))
+      (drop_elem element).
+
+  Definition remove (v : nat) (index : Z) : M elem :=
+    l <- len v ;;
+    if l <=? index then panic else
+    p0 <- as_ptr v ;;
+    let p := padd p0 index in
+    x <- slot_read p ;;
+    slot_copy (padd p 1) p (l - index - 1) ;;;
+    set_len v (l - 1) ;;;
+    hand_out x ;;;
+    ret x.
+
+  Definition swap_remove (v : nat) (index : Z) : M elem :=
+    l <- len v ;;
+    if l <=? index then panic else
+    p0 <- as_ptr v ;;
+    src <- slot_read (padd p0 (l - 1)) ;;
+    set_len v (l - 1) ;;;
+    let dst := padd p0 index in
+    old <- slot_read dst ;;
+    slot_write dst src ;;;
+    hand_out old ;;;
+    ret old.
+
+  Definition truncate (v : nat) (n : Z) : M unit :=
+    l <- len v ;;
+    if l <=? n then ret tt else
+    set_len v n ;;;
+    if negb (needs_drop cfg) then ret tt else
+    d <- data v ;;
+    es <- read_list (padd d n) (l - n) ;;
+    drop_list es.
+
+  Definition clear (v : nat) : M unit := truncate v 0.
+
+  (* src/drop.rs *)
+  Definition drop_handle (h : handle) (v : nat) : M unit :=
+    match h with
+    | Sentinel => ret tt
+    | _ =>
+        x <- hdr_block h ;;
+        let bl := snd x in
+        d <- data v ;;
+        es <- read_list d (h_len bl) ;;
+        drop_list es ;;;
+        lay <- lift_opt (make_layout cfg (h_cap bl) (h_align bl)) ;;
+        do_dealloc h (fst lay) (snd lay)
+    end.
+
+  (* drop the vector named v (the name becomes free whether or not a destructor panics) *)
+  Definition drop_vec (v : nat) : M unit :=
+    h <- vec_handle v ;;
+    try_finally (drop_handle h v) (set_handle v None).
+
+  Definition append (v o : nat) : M unit :=
+    ol <- len o ;;
+    if ol =? 0 then ret tt else
+    reserve v ol ;;;
+    src <- as_ptr o ;;
+    dst <- as_ptr v ;;
+    l <- len v ;;
+    slot_copy_across src (padd dst l) ol ;;;
+    set_len o 0 ;;;
+    l <- len v ;;
+    set_len v (l + ol).
+
+  (* swap two slots through references (core::mem::swap) *)
+  Definition slot_swap (p q : eptr) : M unit :=
+    a <- slot_read p ;; b <- slot_read q ;;
+    slot_write p b ;;; slot_write q a.
+
+  (* user callbacks: the script gives the answers; 80 = 'P' panic, 84 = 'T', 70 = 'F' *)
+  Definition answer := Z.
+  Definition A_T : answer := 84. Definition A_F : answer := 70. Definition A_P : answer := 80.
+  Definition A_S : answer := 83. Definition A_N : answer := 78.
+
+  Definition pop_script (sc : list answer) (default : answer) : answer * list answer :=
+    match sc with [] => (default, []) | a :: sc => (a, sc) end.
+
+  (* dedup_by: the kind of equality used *)
+  Inductive same_kind :=
+  | SameEq                      (* dedup: x == y through T::eq *)
+  | SameKey                     (* dedup_by_key with key = payload / 2 *)
+  | SameScript.                 (* dedup_by with scripted answers *)
+
+  Definition NAN_PAYLOAD : Z := 7.
+
+  Definition elem_eq (a b : elem) : M bool :=
+    expose a ;;; expose b ;;;
+    emit (EvCall "q" [a; b]) ;;;
+    pa <- payload_of a ;; pb <- payload_of b ;;
+    ret ((pa =? pb) && negb (pa =? NAN_PAYLOAD)).
+
+  Definition same_call (k : same_kind) (a b : elem) (sc : list answer) : M (bool * list answer) :=
+    match k with
+    | SameEq => r <- elem_eq a b ;; ret (r, sc)
+    | SameKey =>
+        emit (EvCall "k" [a]) ;;; emit (EvCall "k" [b]) ;;;
+        pa <- payload_of a ;; pb <- payload_of b ;;
+        ret (pa / 2 =? pb / 2, sc)
+    | SameScript =>
+        emit (EvCall "p" [a; b]) ;;;
+        let '(x, sc') := pop_script sc A_F in
+        if x =? A_P then panic else ret (x =? A_T, sc')
+    end.
+
+  Fixpoint dedup_loop (fuel : nat) (k : same_kind) (d : eptr) (l read write : Z) (sc : list answer) : M Z :=
+    match fuel with
+    | O => ret write
+    | S fuel =>
+        if l <=? read then ret write else
+        a <- slot_read (padd d read) ;;
+        b <- slot_read (padd d (write - 1)) ;;
+        r <- same_call k a b sc ;;
+        let '(m, sc') := r in
+        if m then dedup_loop fuel k d l (read + 1) write sc'
+        else (if negb (read =? write) then slot_swap (padd d read) (padd d write) else ret tt) ;;;
+             dedup_loop fuel k d l (read + 1) (write + 1) sc'
+    end.
+
+  Definition dedup_by (v : nat) (k : same_kind) (sc : list answer) : M unit :=
+    l <- len v ;;
+    if l <? 2 then ret tt else
+    d <- as_ptr v ;;
+    w <- dedup_loop (Z.to_nat l) k d l 1 1 sc ;;
+    truncate v w.
+
+  Fixpoint retain_loop (fuel : nat) (d : eptr) (l read write : Z) (sc : list answer) : M Z :=
+    match fuel with
+    | O => ret write
+    | S fuel =>
+        if l <=? read then ret write else
+        a <- slot_read (padd d read) ;;
+        expose a ;;;
+        emit (EvCall "p" [a]) ;;;
+        let '(x, sc') := pop_script sc A_T in
+        if x =? A_P then panic else
+        if negb (x =? A_F) then
+          (if negb (read =? write) then slot_swap (padd d read) (padd d write) else ret tt) ;;;
+          retain_loop fuel d l (read + 1) (write + 1) sc'
+        else retain_loop fuel d l (read + 1) write sc'
+    end.
+
+  Definition retain (v : nat) (sc : list answer) : M unit :=
+    l <- len v ;;
+    d <- as_ptr v ;;
+    w <- retain_loop (Z.to_nat l) d l 0 0 sc ;;
+    truncate v w.
+
+  (* remove_item(&item): item is a probe element compared through T::eq(self[i], item) *)
+  Fixpoint remove_item_loop (fuel : nat) (v : nat) (i l : Z) (probe : elem) : M (option elem) :=
+    match fuel with
+    | O => ret None
+    | S fuel =>
+        if l <=? i then ret None else
+        es <- deref v ;;
+        match nth_error es (Z.to_nat i) with
+        | None => panic
+        | Some e =>
+            r <- elem_eq e probe ;;
+            if r then x <- remove v i ;; ret (Some x)
+            else remove_item_loop fuel v (i + 1) l probe
+        end
+    end.
+
+  Definition remove_item (v : nat) (probe : elem) : M (option elem) :=
+    l <- len v ;;
+    remove_item_loop (Z.to_nat l) v 0 l probe.
+
+  Fixpoint repeat_m (n : nat) (m : M unit) : M unit :=
+    match n with O => ret tt | S n => m ;;; repeat_m n m end.
+
+  (* a count that is known to fit in the capacity just reserved; impossible counts never get here *)
+  Definition small (n : Z) : nat := Z.to_nat (Z.min n 1000000).
+
+  Definition resize (v : nat) (new_len : Z) (value : elem) : M unit :=
+    try_finally
+      (l <- len v ;;
+       if new_len =? l then ret tt
+       else if l <? new_len then
+         reserve v (new_len - l) ;;;
+         repeat_m (small (new_len - l)) (c <- clone_elem value ;; push v c)
+       else truncate v new_len)
+      (drop_elem value).
+
+  (* generator closure: script 'S' (default) = a fresh element, 'P' = panic *)
+  Definition gen_elem (sc : list answer) : M (elem * list answer) :=
+    let '(x, sc') := pop_script sc A_S in
+    if x =? A_P then emit (EvCall "gP" []) ;;; panic
+    else s <- get ;; e <- fresh_elem (next_elem s) ;; emit (EvCall "g" [e]) ;;; ret (e, sc').
+
+  Fixpoint resize_with_loop (n : nat) (v : nat) (sc : list answer) : M unit :=
+    match n with
+    | O => ret tt
+    | S n => r <- gen_elem sc ;; push v (fst r) ;;; resize_with_loop n v (snd r)
+    end.
+
+  Definition resize_with (v : nat) (new_len : Z) (sc : list answer) : M unit :=
+    l <- len v ;;
+    if new_len =? l then ret tt
+    else if l <? new_len then reserve v (new_len - l) ;;; resize_with_loop (small (new_len - l)) v sc
+    else truncate v new_len.
+
+  Fixpoint push_clones (v : nat) (es : list elem) : M unit :=
+    match es with
+    | [] => ret tt
+    | e :: es => c <- clone_elem e ;; push v c ;;; push_clones v es
+    end.
+
+  (* extend_from_slice(&[T]): the slice is given by its element identities *)
+  Definition extend_from_slice (v : nat) (src : list elem) : M unit :=
+    reserve v (Z.of_nat (List.length src)) ;;; push_clones v src.
+
+  (* scripted iterator: 'S' = Some(fresh), 'N' (default) = None, 'P' = panic *)
+  Definition iter_next (sc : list answer) : M (option elem * list answer) :=
+    let '(x, sc') := pop_script sc A_N in
+    if x =? A_P then emit (EvCall "gP" []) ;;; panic
+    else if x =? A_S then s <- get ;; e <- fresh_elem (next_elem s) ;; emit (EvCall "g" [e]) ;;; ret (Some e, sc')
+    else emit (EvCall "gn" []) ;;; ret (None, sc').
+
+  (* for x in iter { v.push(x) }: ends at the first None; fuel bounds the script length *)
+  Fixpoint extend_loop (fuel : nat) (v : nat) (sc : list answer) : M (list answer) :=
+    match fuel with
+    | O => ret sc
+    | S fuel =>
+        r <- iter_next sc ;;
+        match fst r with
+        | None => ret (snd r)
+        | Some e => push v e ;;; extend_loop fuel v (snd r)
+        end
+    end.
+
+  Definition extend (v : nat) (sc : list answer) : M (list answer) :=
+    extend_loop (S (List.length sc)) v sc.
+
+  (* a local vector under construction is dropped if the construction unwinds *)
+  Definition building (v : nat) (m : M unit) : M unit :=
+    on_unwind m (drop_vec v).
+
+  Definition from_iter (v : nat) (sc : list answer) : M (list answer) :=
     new_vec v ;;;
-    (* the sentinel must record the alignment even for capacity 0 *)
-    grow_first v c a ;;; ret 0
-  with_alignment_placeholder := tt.
+    on_unwind (extend v sc) (drop_vec v).
+
+  Definition from_slice (v : nat) (src : list elem) : M unit :=
+    with_capacity v (Z.of_nat (List.length src)) ;;;
+    building v (push_clones v src).
+
+  Definition clone_vec (v w : nat) : M unit :=
+    d <- is_default v ;;
+    if d then new_vec w else
+    new_vec w ;;;
+    building w
+      (l <- len v ;;
+       reserve w l ;;;
+       (fix go (n : nat) (i : Z) : M unit :=
+          match n with
+          | O => ret tt
+          | S n =>
+              es <- deref v ;;
+              match nth_error es (Z.to_nat i) with
+              | None => panic
+              | Some e => c <- clone_elem e ;; push w c ;;; go n (i + 1)
+              end
+          end) (Z.to_nat l) 0).
+
+  (* bounds of a range argument *)
+  Inductive bound := BIncl (n : Z) | BExcl (n : Z) | BUnb.
+
+  Definition resolve (bs be : bound) (l : Z) : M (Z * Z) :=
+    s <- match bs with
+         | BIncl n => ret n
+         | BExcl n => add_m n 1
+         | BUnb => ret 0
+         end ;;
+    e <- match be with
+         | BIncl n => add_m n 1
+         | BExcl n => ret n
+         | BUnb => ret l
+         end ;;
+    if e <? s then panic else if l <? e then panic else ret (s, e).
+
+  Fixpoint efw_loop (n : nat) (v : nat) (d : eptr) (l s i : Z) : M Z :=
+    match n with
+    | O => ret i
+    | S n =>
+        e <- slot_read (padd d (s + i)) ;;
+        r <- catch (clone_elem e) ;;
+        match r with
+        | None => set_len v (l + i) ;;; panic       (* PanicGuard publishes the completed clones *)
+        | Some c => slot_write (padd d (l + i)) c ;;; efw_loop n v d l s (i + 1)
+        end
+    end.
+
+  Definition extend_from_within (v : nat) (bs be : bound) : M unit :=
+    l <- len v ;;
+    r <- resolve bs be l ;;
+    let '(s, e) := r in
+    if l =? 0 then ret tt else
+    reserve v (e - s) ;;;
+    c <- capacity v ;;
+    if c =? 0 then ret tt else
+    d <- as_ptr v ;;
+    _ <- expose_slice d l ;;
+    cnt <- efw_loop (Z.to_nat (Z.min (e - s) (c - l))) v d l s 0 ;;
+    set_len v (l + cnt).
+
+  Definition split_off (v o : nat) (at_ : Z) : M unit :=
+    l <- len v ;;
+    if l <? at_ then panic else
+    if l =? 0 then
+      c <- capacity v ;;
+      if 0 <? c then with_capacity o c else new_vec o
+    else if at_ =? 0 then
+      c <- capacity v ;;
+      h <- vec_handle v ;;
+      set_handle o (Some h) ;;;
+      set_handle v (Some Sentinel) ;;;
+      on_unwind (reserve_exact v c) (drop_vec o)
+    else
+      c <- capacity v ;;
+      with_capacity o c ;;;
+      set_len v at_ ;;;
+      set_len o (l - at_) ;;;
+      src <- as_ptr v ;;
+      dst <- as_ptr o ;;
+      slot_copy_across (padd src at_) dst (l - at_).
+
+  Definition drain_vec (v o : nat) : M unit :=
+    h <- vec_handle v ;;
+    set_handle o (Some h) ;;; set_handle v (Some Sentinel).
+
+  Definition spare_capacity (v : nat) : M Z :=
+    c <- capacity v ;;
+    if c =? 0 then ret 0 else
+    l <- len v ;; d <- data v ;;
+    (if l <? c then _ <- elt_block (padd d (c - 1)) ;; ret tt else ret tt) ;;;
+    ret (c - l).
+
+  Definition split_at_spare (v : nat) : M (Z * Z) :=
+    c <- capacity v ;;
+    if c =? 0 then ret (0, 0) else
+    l <- len v ;; p <- as_ptr v ;;
+    _ <- expose_slice p l ;;
+    ret (l, c - l).
+
+  Definition index (v : nat) (i : Z) : M elem :=
+    es <- deref v ;;
+    match (if (0 <=? i) && (i <? Z.of_nat (List.length es)) then nth_error es (Z.to_nat i) else None) with
+    | Some e => ret e
+    | None => panic
+    end.
+
+  Definition slice_range (v : nat) (bs be : bound) : M (list elem) :=
+    es <- deref v ;;
+    r <- resolve bs be (Z.of_nat (List.length es)) ;;
+    let '(s, e) := r in
+    ret (firstn (Z.to_nat (e - s)) (skipn (Z.to_nat s) es)).
+
+  (* leak: the vector is wrapped in ManuallyDrop; the caller gets &mut [T] *)
+  Definition leak (v : nat) : M (list elem) :=
+    d <- is_default v ;;
+    if d then set_handle v None ;;; ret [] else
+    l <- len v ;; p <- as_ptr v ;;
+    es <- expose_slice p l ;;
+    set_handle v None ;;; ret es.
+
+  (* into_raw_parts followed by from_raw_part / from_raw_parts *)
+  Definition raw_roundtrip (v : nat) (three : bool) : M (Z * Z) :=
+    p <- as_ptr v ;;
+    l <- len v ;; c <- capacity v ;;
+    match p with
+    | PElt b off _ =>
+        a <- lift_opt (next_aligned HEADER_SIZE (ealign cfg)) ;;
+        let h := At b (off - a) in
+        (if three && negb (release cfg) then
+           (* debug_assert: the header words read through buf equal length and capacity *)
+           x <- hdr_block h ;;
+           if (h_len (snd x) =? l) && (h_cap (snd x) =? c) then ret tt else panic
+         else ret tt) ;;;
+        set_handle v (Some h) ;;;
+        ret (l, c)
+    | _ => ub NullDeref
+    end.
+
+  (* mini_vec![e; n] with an element expression that creates a fresh value per evaluation *)
+  Definition macro_repeat (v : nat) (n : Z) : M unit :=
+    r <- gen_elem [] ;;
+    let e := fst r in
+    try_finally
+      (with_capacity v n ;;;
+       building v
+         ((fix go (k : nat) (i : Z) : M unit :=
+             match k with
+             | O => ret tt
+             | S k => c <- clone_elem e ;;
+                      d <- data v ;;
+                      slot_write (padd d i) c ;;; go k (i + 1)
+             end) (small n) 0 ;;;
+          if 0 <? n then set_len v n else ret tt))
+      (drop_elem e).
+
+  Fixpoint push_fresh (k : nat) (v : nat) : M unit :=
+    match k with
+    | O => ret tt
+    | S k => s <- get ;; e <- fresh_elem (next_elem s) ;; push v e ;;; push_fresh k v
+    end.
+
+  (* From<&str> for MiniVec<u8>: k bytes whose identities are the next k identities *)
+  Definition from_str (v : nat) (src : list elem) : M unit :=
+    let k := Z.of_nat (List.length src) in
+    with_capacity v k ;;;
+    if k =? 0 then ret tt else
+    building v
+      (p <- as_ptr v ;;
+       (fix go (es : list elem) (i : Z) : M unit :=
+          match es with
+          | [] => ret tt
+          | e :: es => slot_write (padd p i) e ;;; go es (i + 1)
+          end) src 0 ;;;
+       set_len v k).
+
+  (* ---------------------------------------------------------------- iterators *)
+
+  Definition iter_get (i : nat) : M iter :=
+    fun s => match nth_error (iters s) i with
+             | Some (Some it) => (Val it, s)
+             | _ => (UB BadObject, s)
+             end.
+  Definition iter_set (i : nat) (it : option iter) : M unit :=
+    s <- get ;; set_iters (list_put None (iters s) i it).
+
+  (* address order of two element pointers of the same provenance *)
+  Definition ptr_lt (p q : eptr) : M bool :=
+    match p, q with
+    | PElt b _ i, PElt b' _ j => if Nat.eqb b b' then ret (i <? j) else ub WildCursor
+    | PDangling, PDangling => ret false
+    | PNull, PNull => ret false
+    | PNull, PDangling => ret true
+    | PDangling, PNull => ret false
+    | _, _ => ub WildCursor
+    end.
+  Definition ptr_diff (p q : eptr) : M Z :=   (* (p - q) / size_of T *)
+    match p, q with
+    | PElt b _ i, PElt b' _ j => if Nat.eqb b b' then ret (i - j) else ub WildCursor
+    | PDangling, PDangling => ret 0
+    | PNull, PNull => ret 0
+    | _, _ => ub WildCursor
+    end.
+
+  Definition make_drain (v : nat) (bs be : bound) (fill : option (list answer)) : M drain_it :=
+    l <- len v ;;
+    r <- resolve bs be l ;;
+    let '(s, e) := r in
+    d <- as_ptr v ;;
+    match d with
+    | PNull =>
+        ret {| d_vec := v; d_pos := PDangling; d_end := PDangling; d_rpos := PDangling;
+               d_rem := match fill with Some _ => 0 | None => l - e end; d_fill := fill |}
+    | _ =>
+        set_len v s ;;;
+        ret {| d_vec := v; d_pos := padd d s; d_end := padd d e; d_rpos := padd d e;
+               d_rem := l - e; d_fill := fill |}
+    end.
+
+  Definition with_pos (d : drain_it) (p : eptr) : drain_it :=
+    {| d_vec := d_vec d; d_pos := p; d_end := d_end d; d_rpos := d_rpos d; d_rem := d_rem d; d_fill := d_fill d |}.
+  Definition with_end (d : drain_it) (p : eptr) : drain_it :=
+    {| d_vec := d_vec d; d_pos := d_pos d; d_end := p; d_rpos := d_rpos d; d_rem := d_rem d; d_fill := d_fill d |}.
+  Definition with_fill (d : drain_it) (f : list answer) : drain_it :=
+    {| d_vec := d_vec d; d_pos := d_pos d; d_end := d_end d; d_rpos := d_rpos d; d_rem := d_rem d; d_fill := Some f |}.
+
+  (* the raw step: the bits leave the window; who owns them is decided by the caller *)
+  Definition drain_next (d : drain_it) : M (option elem * drain_it) :=
+    lt <- ptr_lt (d_pos d) (d_end d) ;;
+    if negb lt then ret (None, d) else
+    e <- slot_read (d_pos d) ;;
+    ret (Some e, with_pos d (padd (d_pos d) 1)).
+
+  Definition drain_next_back (d : drain_it) : M (option elem * drain_it) :=
+    lt <- ptr_lt (d_pos d) (d_end d) ;;
+    if negb lt then ret (None, d) else
+    let p := padd (d_end d) (-1) in
+    e <- slot_read p ;;
+    ret (Some e, with_end d p).
+
+  Definition drain_hint (d : drain_it) : M Z := ptr_diff (d_end d) (d_pos d).
+
+  (* drop every element still in the window (no guard: used inside the DropGuard) *)
+  Fixpoint drain_rest (fuel : nat) (d : drain_it) : M drain_it :=
+    match fuel with
+    | O => ret d
+    | S fuel =>
+        r <- drain_next d ;;
+        match fst r with
+        | None => ret (snd r)
+        | Some e => drop_elem e ;;; drain_rest fuel (snd r)
+        end
+    end.
+
+  Definition window_fuel (d : drain_it) : nat :=
+    match d_pos d, d_end d with
+    | PElt _ _ i, PElt _ _ j => S (Z.to_nat (j - i))
+    | _, _ => 1%nat
+    end.
+
+  Definition drain_guard (d : drain_it) : M unit :=
+    d <- drain_rest (window_fuel d) d ;;
+    if 0 <? d_rem d then
+      let v := d_vec d in
+      vl <- len v ;;
+      p <- as_ptr v ;;
+      slot_copy (d_rpos d) (padd p vl) (d_rem d) ;;;
+      set_len v (vl + d_rem d)
+    else ret tt.
+
+  (* Splice's DropGuard::drop (src/impl/splice.rs) *)
+  Fixpoint fill_loop (n : nat) (v : nat) (begin : eptr) (idx : Z) (sc : list answer)
+    : M (bool * list answer) :=           (* (needs_more, rest of the script) *)
+    match n with
+    | O => ret (true, sc)
+    | S n =>
+        r <- iter_next sc ;;
+        match fst r with
+        | Some e =>
+            on_unwind (slot_write (padd begin idx) e ;;; l <- len v ;; set_len v (l + 1)) (drop_elem e) ;;;
+            fill_loop n v begin (idx + 1) (snd r)
+        | None => ret (false, snd r)
+        end
+    end.
+
+  Definition splice_guard (tmp : nat) (d : drain_it) : M unit :=
+    d <- drain_rest (window_fuel d) d ;;
+    let v := d_vec d in
+    let sc := match d_fill d with Some f => f | None => [] end in
+    dflt <- is_default v ;;
+    if dflt then _ <- extend v sc ;; ret tt else
+    p0 <- as_ptr v ;;
+    l0 <- len v ;;
+    let begin := padd p0 l0 in
+    nd <- ptr_diff (d_rpos d) begin ;;
+    r <- fill_loop (Z.to_nat nd) v begin 0 sc ;;
+    let '(needs_more, sc) := r in
+    if negb needs_more then
+      l <- len v ;; p <- as_ptr v ;;
+      same <- ptr_diff (padd p l) (d_rpos d) ;;
+      if same =? 0 then set_len v (l + d_rem d)
+      else slot_copy (d_rpos d) (padd p l) (d_rem d) ;;; set_len v (l + d_rem d)
+    else
+      _ <- from_iter tmp sc ;;
+      try_finally
+        (c <- capacity v ;;
+         p <- as_ptr v ;;
+         roff <- ptr_diff (d_rpos d) p ;;
+         l <- len v ;; tl <- len tmp ;;
+         let total := l + d_rem d + tl in
+         (if c <? total then a <- alignment v ;; grow v total a else ret tt) ;;;
+         p <- as_ptr v ;;
+         (if 0 <? d_rem d then slot_copy (padd p roff) (padd p (l + tl)) (d_rem d) else ret tt) ;;;
+         (if 0 <? tl then tp <- as_ptr tmp ;; slot_copy_across tp (padd p l) tl else ret tt) ;;;
+         set_len v (l + d_rem d + tl) ;;;
+         (if 0 <? tl then set_len tmp 0 else ret tt))
+        (drop_vec tmp).
+
+  (* Drain::drop / Splice::drop: `while let Some(item) = self.next() { guard; drop(item); forget(guard) }`
+     then the final guard *)
+  Fixpoint drain_drop_loop (fuel : nat) (guard : drain_it -> M unit) (d : drain_it) : M drain_it :=
+    match fuel with
+    | O => ret d
+    | S fuel =>
+        r <- drain_next d ;;
+        match fst r with
+        | None => ret (snd r)
+        | Some e => on_unwind (drop_elem e) (guard (snd r)) ;;; drain_drop_loop fuel guard (snd r)
+        end
+    end.
+
+  Definition drain_drop (tmp : nat) (d : drain_it) : M unit :=
+    let guard := match d_fill d with Some _ => splice_guard tmp | None => drain_guard end in
+    d' <- drain_drop_loop (window_fuel d) guard d ;;
+    guard d'.
+
+  (* DrainFilter *)
+  Definition make_filter (v : nat) (sc : list answer) : M dfilter_it :=
+    l <- len v ;;
+    (if 0 <? l then set_len v 0 else ret tt) ;;;
+    ret {| f_vec := v; f_old := l; f_new := 0; f_pos := 0; f_panicked := false; f_pred := sc |}.
+
+  Definition with_f (f : dfilter_it) (nw ps : Z) (pk : bool) (sc : list answer) : dfilter_it :=
+    {| f_vec := f_vec f; f_old := f_old f; f_new := nw; f_pos := ps; f_panicked := pk; f_pred := sc |}.
+
+  (* next(): on a predicate panic the iterator is left with panicked = true (returned in the
+     second component together with Panicking being signalled through None/Some protocol) *)
+  Inductive fstep := FYield (e : elem) | FDone | FPanic.
+
+  Fixpoint filter_next (fuel : nat) (f : dfilter_it) : M (fstep * dfilter_it) :=
+    match fuel with
+    | O => ret (FDone, f)
+    | S fuel =>
+        if f_old f <=? f_pos f then ret (FDone, f) else
+        d <- data (f_vec f) ;;
+        e <- slot_read (padd d (f_pos f)) ;;
+        expose e ;;;
+        emit (EvCall "p" [e]) ;;;
+        let '(x, sc) := pop_script (f_pred f) A_F in
+        if x =? A_P then ret (FPanic, with_f f (f_new f) (f_pos f) true sc) else
+        if x =? A_T then ret (FYield e, with_f f (f_new f) (f_pos f + 1) false sc) else
+        (if f_new f <? f_pos f then slot_copy (padd d (f_pos f)) (padd d (f_new f)) 1 else ret tt) ;;;
+        filter_next fuel (with_f f (f_new f + 1) (f_pos f + 1) false sc)
+    end.
+
+  Definition filter_fuel (f : dfilter_it) : nat := S (Z.to_nat (f_old f - f_pos f)).
+
+  Definition filter_guard (f : dfilter_it) : M unit :=
+    let num_remaining := f_old f - f_pos f in
+    let num_drained := f_pos f - f_new f in
+    (if (0 <? num_remaining) && (0 <? num_drained) then
+       p <- as_ptr (f_vec f) ;;
+       slot_copy (padd p (f_pos f)) (padd p (f_new f)) num_remaining
+     else ret tt) ;;;
+    if f_old f =? 0 then ret tt else set_len (f_vec f) (f_new f + num_remaining).
+
+  (* Drop for DrainFilter: for_each(drop) under the guard *)
+  Fixpoint filter_drop_loop (fuel : nat) (f : dfilter_it) : M unit :=
+    match fuel with
+    | O => filter_guard f
+    | S fuel =>
+        r <- filter_next (filter_fuel f) f ;;
+        match fst r with
+        | FDone => filter_guard (snd r)
+        | FPanic => try_finally panic (filter_guard (snd r))
+        | FYield e => on_unwind (drop_elem e) (filter_guard (snd r)) ;;; filter_drop_loop fuel (snd r)
+        end
+    end.
+
+  Definition filter_drop (f : dfilter_it) : M unit :=
+    if f_panicked f then filter_guard f else filter_drop_loop (filter_fuel f) f.
+
+  (* IntoIter *)
+  Definition make_into (v : nat) : M into_it :=
+    d <- is_default v ;;
+    p <- (if d then ret PNull else data v) ;;
+    ret {| i_vec := v; i_pos := p |}.
+
+  Definition into_next (it : into_it) : M (option elem * into_it) :=
+    d <- is_default (i_vec it) ;;
+    if d then ret (None, it) else
+    l <- len (i_vec it) ;;
+    if l <=? 0 then ret (None, it) else
+    set_len (i_vec it) (l - 1) ;;;
+    e <- slot_read (i_pos it) ;;
+    ret (Some e, {| i_vec := i_vec it; i_pos := padd (i_pos it) 1 |}).
+
+  Definition into_next_back (it : into_it) : M (option elem * into_it) :=
+    d <- is_default (i_vec it) ;;
+    if d then ret (None, it) else
+    l <- len (i_vec it) ;;
+    if l <=? 0 then ret (None, it) else
+    set_len (i_vec it) (l - 1) ;;;
+    e <- slot_read (padd (i_pos it) (l - 1)) ;;
+    ret (Some e, it).
+
+  Definition into_as_slice (it : into_it) : M (list elem) :=
+    d <- is_default (i_vec it) ;;
+    if d then ret [] else
+    l <- len (i_vec it) ;;
+    expose_slice (i_pos it) l.
+
+  Definition into_clone (it : into_it) (w : nat) : M into_it :=
+    new_vec w ;;;
+    building w (es <- into_as_slice it ;; extend_from_slice w es) ;;;
+    make_into w.
+
+  Definition into_drop (it : into_it) : M unit :=
+    let v := i_vec it in
+    d <- is_default v ;;
+    if d then set_handle v None else
+    try_finally
+      (l <- len v ;;
+       set_len v 0 ;;;
+       es <- read_list (i_pos it) l ;;
+       drop_list es)
+      (drop_vec v).
 End WithCfg.
